@@ -256,6 +256,10 @@ def Net.applyAdvert (net : Net) (u w : Nat) (adv : List AdvEntry) : Option (Net 
     some (net.setAt u { ru with rib := rib' }, d)
   | _, _ => none
 
+/-- `Config.Parse` (dv/config/config.go) on the two intervals, in milliseconds: the advertise interval is
+    at least one second and the dead interval at least two advertise intervals -/
+def configValid (advMs deadMs : Nat) : Bool := advMs ≥ 1000 && deadMs ≥ 2 * advMs
+
 /-- `GetFibEntries`: (face1, cost1, face2, cost2) of an entry, face 0 when the next hop has no
     neighbour state -/
 def fibEntriesOf (nbrs : List (Nat × Nat)) (e : Entry) : Nat × Nat × Nat × Nat :=
